@@ -25,6 +25,17 @@ CLAIMED["C12"] = dict(engine="seqx", technique="bounded exhaustive input enumera
          "monotonicity in delta is walked per base, and waits on already-elapsed results must not block.",
     design_ref="DESIGN.md §5 C12", note=SEQ)
 
+CLAIMED["C13"] = dict(engine="seqx", technique="explicit-state breadth-first search over operation terms with canonical-state de-duplication, every term checked against a byte-string reference model on the real code under ASan",
+    text="All dispatch_data terms over three leaves (five leaf-kind configurations: block/free/default/none/function destructors) up to a record/byte/depth bound are built with the real "
+         "concat/subrange/map/copy_region (every offset and length, including out-of-range), de-duplicated on the canonical region list, and each is checked for size, apply tiling, map bytes, "
+         "copy_region containment and ASan cleanliness; handles of small terms are released in every order with destructor-exactly-once and not-before-last-release checks.",
+    design_ref="DESIGN.md §5 C13", note=SEQ)
+CLAIMED["C18"] = dict(engine="seqx", technique="exhaustive enumeration of the attribute table (all tuples x all constructor orders, closure under constructor application) and of the dispatch_get_global_queue identifier/flag space against a table model",
+    text="Every one of the 4032 attribute tuples is built through every order of the constructors, must intern to one pointer, be injective, and the created queue must report label, QoS class "
+         "(platform clamp only for unsupported classes), relative priority; concurrency and initial inactivity are observed behaviourally on 12 representatives. dispatch_get_global_queue is called "
+         "on the full cross product of identifiers (all 16-bit values, QoS constants and neighbours, wide values) and flags: defined ids map to the documented class's queue (by label and pointer identity), others to NULL.",
+    design_ref="DESIGN.md §5 C18", note=SEQ + " The queue-specific-data / dispatch_assert_queue half of C18 is decided by dsched tasks of the same check when listed in the evidence.")
+
 NOT_YET = {}
 
 def main():
